@@ -1,5 +1,6 @@
 import OnlVerif.Lemmas.StampFairRun
 import OnlVerif.Lemmas.StampVc
+import OnlVerif.Lemmas.GenSched
 /-!
 # C14 — WFQ and VirtualClock transmit in virtual-finish-stamp order
 
@@ -274,6 +275,53 @@ theorem static_backlog_fair_started (c : WfqCfg ℚ) (hp : WFQ.Pos c) (t0 : ℚ)
   rw [abs_le]
   constructor <;> linarith
 
+/-! ### The source, re-translated on every run, *is* the stamp model (bridge theorems)
+
+`Generated/Sched.lean` is rewritten by `py2lean` from the current `onl/scheduler/wfq.py`, `virtual_clock.py`, `base.py` before
+this file is compiled.  The model keeps the dicts as association lists with explicit `KeyError`s; the translated methods are
+*seen from the class of the packet in hand* (`GenSched.wfqObj` / `vcObj`: that class's dict entries as scalar fields, effects
+counted, the key of the stored `PriorityItem` recorded), and the `for i in self.active_set` loop folds over
+`GenSched.activeWeights`.  Over exact rationals. -/
+
+/-- **`WFQ.put` as written in the source is the model's `WFQ.put`**: whenever the model accepts `put(p)` (every lookup
+hits) with new stamp state `st'` and stamp `F`, the translated method, run on the view of `st` from `p`'s class `k` (weight
+`w`), ends in the view of `st'`: same virtual time, `last_time = now`, `finish_times[k] = F`, `class_count[k]` one more, one
+`add_packet_to_queue`, one `active_set.add`, and one `store.put(PriorityItem((F, now), packet))`.  (A changed constant or
+operator in the stamp formula, `max` ↔ `min`, a swapped reset/update branch, a missing effect make this fail to compile.) -/
+theorem wfq_put_generated_eq_model (c : WfqCfg ℚ) (st st' : WfqSt ℚ) (now : ℚ) (total : Int) (F : ℚ) (p : SPkt)
+    (e1 e2 e3 : Nat) (ps pa : ℚ) (h : WFQ.put c st now total p = .ok (st', F)) :
+    ∃ k w, lookup c.flow2class p.flow = some k ∧ lookup c.weights k = some w ∧
+      Gen.WFQ.put (GenSched.wfqObj c st k w e1 e2 e3 ps pa) now total p.size (GenSched.activeWeights c st) =
+        GenSched.wfqObj c st' k w (e1 + 1) (e2 + 1) (e3 + 1) F now :=
+  GenSched.wfq_put_eq c st st' now total F p e1 e2 e3 ps pa h
+
+/-- **`WFQ.update_vtime` / `reset_vtime` as written in the source are the model's `updateVtime` / `resetVtime`** (seen from
+any class `k`; for the reset, a class that has a weight). -/
+theorem wfq_vtime_generated_eq_model (c : WfqCfg ℚ) (st : WfqSt ℚ) (now : ℚ) (k : Nat) (w : ℚ) (e1 e2 e3 : Nat) (ps pa : ℚ) :
+    (∀ st1, WFQ.updateVtime c st now = .ok st1 →
+      Gen.WFQ.update_vtime (GenSched.wfqObj c st k w e1 e2 e3 ps pa) now (GenSched.activeWeights c st) =
+        GenSched.wfqObj c st1 k w e1 e2 e3 ps pa) ∧
+    (lookup c.weights k = some w →
+      Gen.WFQ.reset_vtime (GenSched.wfqObj c st k w e1 e2 e3 ps pa) =
+        GenSched.wfqObj c (WFQ.resetVtime c st) k w e1 e2 e3 ps pa) :=
+  ⟨fun st1 h => GenSched.update_vtime_eq c st st1 now k w e1 e2 e3 ps pa h,
+   fun hw => GenSched.reset_vtime_eq c st k w e1 e2 e3 ps pa hw⟩
+
+/-- **`VC.put` as written in the source is the model's `VC.put`**: whenever the model accepts `put(p)` with stamp `A`, the
+translated method, run on the entries `vc[k] = v`, `aux_vc[k] = a`, `vticks[k] = vt` of `p`'s class, leaves exactly the
+entries of the model's new state and stores `PriorityItem((A, now), packet)` once. -/
+theorem vc_put_generated_eq_model (c : VcCfg ℚ) (st st' : VcSt ℚ) (now : ℚ) (total : Int) (A : ℚ) (p : SPkt)
+    (e1 e3 : Nat) (ps pa : ℚ) (h : VC.put c st now total p = .ok (st', A)) :
+    ∃ k v a vt v' a', lookup c.flow2class p.flow = some k ∧ lookup st.vc k = some v ∧ lookup st.aux k = some a ∧
+      lookup c.vticks k = some vt ∧ lookup st'.vc k = some v' ∧ lookup st'.aux k = some a' ∧
+      Gen.VC.put (GenSched.vcObj c v a vt e1 e3 ps pa) now p.size = GenSched.vcObj c v' a' vt (e1 + 1) (e3 + 1) A now :=
+  GenSched.vc_put_eq c st st' now total A p e1 e3 ps pa h
+
+/-- **The transmission time in `Scheduler.send_packet` as written in the source is the model's `txTime`** = `8·size/rate`. -/
+theorem send_delay_generated_eq_model {σ : Type} (d : Sched ℚ σ) (p : SPkt) :
+    Gen.Scheduler.send_delay { rate := d.rate } p.size = Stamp.txTime d p :=
+  GenSched.send_delay_eq d p
+
 /-! ### non-vacuity -/
 
 /-- what a run ended with: departed packet ids, the store as (packet id, stamp), virtual time -/
@@ -370,6 +418,16 @@ packets 1 and 3 then tie on stamp 1 with equal arrival instants -/
 example : vcSummary (runActs (VC.sched vcfg) (VC.start vcfg 0)
     [.init none, .put ⟨1, 0, 1⟩, .put ⟨2, 1, 1⟩, .put ⟨3, 1, 1⟩, .handoff 2, .resume, .sendInit, .tick 1, .sendFire,
       .sendDone (some 3)]) = some ([2], [(1, 1)]) := by
+  decide +kernel
+
+/-- the bridge hypotheses are met: the model accepts `put` of a 2-byte packet of flow 1 (class 1, weight 2) at t = 0 into the
+empty WFQ scheduler with stamp 1, and the *translated* `WFQ.put`, run on the view from class 1, stores it under `(1, 0)` -/
+example : (match WFQ.put cfg WFQ.init0 0 0 ⟨2, 1, 2⟩ with | .ok (_, F) => some F | .error _ => none) = some 1 ∧
+    (Gen.WFQ.put (GenSched.wfqObj cfg WFQ.init0 1 2 0 0 0 0 0) 0 0 2 (GenSched.activeWeights cfg WFQ.init0)).put_stamp = 1 := by
+  decide +kernel
+
+/-- the translated `VC.put` on the entries of class 1 of `vcfg` (vtick 1/2) at t = 0: stamp `max(0, 0) + 1/2` -/
+example : (Gen.VC.put (GenSched.vcObj vcfg 0 0 (1 / 2) 0 0 0 0) 0 1).put_stamp = 1 / 2 := by
   decide +kernel
 
 end C14
